@@ -107,7 +107,8 @@ def run_tlc(module: str, cfg: str | None = None, *, work: str, env: dict | None 
             heap: str = "8g", check: bool = True, specdir: str = SPEC) -> TlcResult:
     """Run TLC on spec/<module>.tla with spec/<cfg>. `work` holds the metadir. Raises MachineryError
     on timeout or (when check) on any TLC error that is not an invariant/property violation."""
-    meta = os.path.join(work, "meta_%s_%d" % (module, int(time.time() * 1000) % 10**9))
+    import uuid
+    meta = os.path.join(work, "meta_%s_%s" % (module, uuid.uuid4().hex[:12]))
     cmd = ["java", "-XX:+UseParallelGC", "-Xmx" + heap, "-cp", TLA_CP, "tlc2.TLC",
            "-workers", str(workers), "-metadir", meta, "-noGenerateSpecTE"]
     if cfg:
